@@ -190,7 +190,9 @@ def rule_decoder_roles(ctx: Ctx, rule: str) -> None:
             return ('chr', int(m.group(1)), bool(m.group(2)), int(m.group(3)))
         m = re.fullmatch(r'bytes\(\[<?\(?int\(m\.group\((\d+)\)(\[2:\])?, (\d+)\)(&255\))?>?\]\)', t)
         if m:
-            return ('byte', int(m.group(1)), bool(m.group(2)), int(m.group(3)))
+            # an octal escape has up to three digits (max 0o777 = 511): the byte value must be reduced to 0..255
+            return ('byte', int(m.group(1)), bool(m.group(2)), int(m.group(3))) if (m.group(3) != '8' or m.group(4)) else \
+                ('byte-unmasked', int(m.group(1)), bool(m.group(2)), int(m.group(3)))
         m = re.fullmatch(r'unicodedata\.lookup\(m\.group\((\d+)\)\[3:-1\]\)', t)
         if m:
             return ('lookup', int(m.group(1)))
@@ -288,7 +290,7 @@ def rule_decode_only_raw(ctx: Ctx, rule: str) -> None:
                 cur = p
         ctx.ob(rule, f'util:norm_pattern.norm/{s[:40]}@{n}', guarded, repo.loc('util', e), 'only under is_raw_chars', str(guarded),
                witness=r"without RAWCHARS fnmatch('x41', r'\x41') is True: `\x` is an escaped x")
-    ctx.floor(rule, 'decoding expressions', n, 6)
+    ctx.floor(rule, 'decoding expressions', n, 3)
     np_ = repo.func('util', 'norm_pattern')
     qn = fq(np_)
     subs = qn.calls(lambda s: s.endswith('.sub'))
